@@ -4,7 +4,9 @@ import (
 	"fmt"
 	"math/rand"
 	"strings"
+	"sync"
 	"testing"
+	"time"
 
 	"verif/internal/fakeredis"
 	"verif/internal/gen"
@@ -325,5 +327,47 @@ func TestRebuildAgainstDefinition(t *testing.T) {
 	}
 	if n != 4*32 || refused == 0 {
 		t.Fatal(n, refused)
+	}
+}
+
+func TestCfgGate(t *testing.T) {
+	var g cfgGate
+	var mu sync.Mutex
+	installed, inside, maxInside := "", map[string]int{}, 0
+	var wg sync.WaitGroup
+	for i := 0; i < 200; i++ {
+		key := fmt.Sprintf("k%d", i%5)
+		wg.Add(1)
+		go func() {
+			defer wg.Done()
+			g.acquire(key, func() {
+				mu.Lock()
+				defer mu.Unlock()
+				for k, n := range inside {
+					if n > 0 {
+						t.Errorf("configuration %s installed while %d holders of %s are inside", key, n, k)
+					}
+				}
+				installed = key
+			})
+			mu.Lock()
+			if installed != key {
+				t.Errorf("holder of %s runs under configuration %s", key, installed)
+			}
+			inside[key]++
+			if inside[key] > maxInside {
+				maxInside = inside[key]
+			}
+			mu.Unlock()
+			time.Sleep(time.Millisecond)
+			mu.Lock()
+			inside[key]--
+			mu.Unlock()
+			g.release()
+		}()
+	}
+	wg.Wait()
+	if maxInside < 2 {
+		t.Errorf("holders of one configuration never overlapped (max %d)", maxInside)
 	}
 }
